@@ -13,17 +13,22 @@ os.environ['VERIF_NO_ALPHA'] = '1'
 from cfsa.alpha import binding_order, functions   # noqa: E402
 from cfsa.model import Model                      # noqa: E402
 from cfsa.unrefactor import shape_of              # noqa: E402
+from cfsa.recognise import stmt_shapes            # noqa: E402
 m = Model()
-shape, names = {}, {}
+shape, names, stmts = {}, {}, {}
 for p in m.all_paths():
     tree = ast.parse(m.source(p))
     shape[p] = shape_of(tree)
     d = {q: binding_order(fn) for q, fn in functions(tree)}
     names[p] = {q: b for q, b in d.items()}
+    stmts[p] = {q: stmt_shapes(fn) for q, fn in functions(tree)}
 with open(os.path.join(HERE, 'oracles', 'reference_shape.json'), 'w') as f:
     json.dump(shape, f, indent=0, sort_keys=True)
     f.write('\n')
 with open(os.path.join(HERE, 'oracles', 'local_names.json'), 'w') as f:
     json.dump(names, f, indent=0, sort_keys=True)
+    f.write('\n')
+with open(os.path.join(HERE, 'oracles', 'reference_stmts.json'), 'w') as f:
+    json.dump(stmts, f, indent=0, sort_keys=True)
     f.write('\n')
 print(len(shape), 'modules,', sum(len(v['funcs']) for v in shape.values()), 'functions')
